@@ -750,7 +750,155 @@ def _load_facts(paths, table):
                 raw = _re.sub(r"(?<![A-Za-z0-9_])" + _re.escape(new) + r"(?![A-Za-z0-9_])", lambda m_, o_=old: o_, raw)
             out.append(json.loads(raw))
         js = out
-    return js, ren
+    inlined = []
+    if table and os.environ.get("VERIF_NO_INLINE") != "1":
+        for j in js:
+            inlined += _inline_new_helpers(j, table.get(j["crate"], {}), set())
+    return js, ren, inlined
+
+
+def _shift_place(pl, off):
+    out = {"l": pl["l"] + off, "p": []}
+    for q in pl["p"]:
+        if isinstance(q, dict) and "idx" in q:
+            q = dict(q)
+            q["idx"] = q["idx"] + off
+        out["p"].append(q)
+    return out
+
+
+def _shift_operand(op, off, prom_off):
+    if "copy" in op:
+        return {"copy": _shift_place(op["copy"], off)}
+    if "move" in op:
+        return {"move": _shift_place(op["move"], off)}
+    if "const" in op and "promoted" in op["const"]:
+        c = dict(op["const"])
+        c["promoted"] = c["promoted"] + prom_off
+        return {"const": c}
+    return op
+
+
+def _shift_rvalue(rv, off, prom_off, cl_map):
+    rv = dict(rv)
+    for k in ("op", "a", "b"):
+        if k in rv and isinstance(rv[k], dict):
+            rv[k] = _shift_operand(rv[k], off, prom_off)
+    if "place" in rv:
+        rv["place"] = _shift_place(rv["place"], off)
+    if "ops" in rv:
+        rv["ops"] = [_shift_operand(o, off, prom_off) for o in rv["ops"]]
+    if rv.get("k") == "agg" and rv.get("agg") == "closure" and rv.get("def") in cl_map:
+        rv["def"] = cl_map[rv["def"]]
+    return rv
+
+
+def _inline_call(caller, bi, callee, serial, cl_map):
+    """replace the call in block `bi` of `caller` by a copy of `callee`'s body (locals and blocks appended, arguments assigned, every
+    `return` becomes `dest = move _0'; goto continuation`)"""
+    t = caller["blocks"][bi]["term"]
+    off, boff, prom_off = len(caller["locals"]), len(caller["blocks"]), 1000 * serial
+    caller["locals"].extend(json.loads(json.dumps(callee["locals"])))
+    for d in callee.get("debug", []):
+        d2 = json.loads(json.dumps(d))
+        if isinstance(d2.get("value"), dict) and "l" in d2["value"]:
+            d2["value"] = _shift_place(d2["value"], off)
+            d2.pop("arg", None)
+            caller.setdefault("debug", []).append(d2)
+    sp = t.get("sp")
+    for blk in callee["blocks"]:
+        nb = {"cleanup": blk["cleanup"], "stmts": [], "term": None}
+        for st in blk["stmts"]:
+            st2 = dict(st)
+            st2["lhs"] = _shift_place(st["lhs"], off)
+            st2["rv"] = _shift_rvalue(st["rv"], off, prom_off, cl_map)
+            nb["stmts"].append(st2)
+        tt = dict(blk["term"])
+        k = tt["k"]
+        if k == "return":
+            nb["stmts"].append({"k": "assign", "lhs": t["dest"], "rv": {"k": "use", "op": {"move": {"l": off, "p": []}}}, "sp": tt.get("sp", sp)})
+            tt = {"k": "goto", "target": t["target"], "sp": tt.get("sp", sp)}
+        else:
+            if "target" in tt and tt["target"] is not None:
+                tt["target"] = tt["target"] + boff
+            if k == "switch":
+                tt["discr"] = _shift_operand(tt["discr"], off, prom_off)
+                tt["targets"] = [[v, tg + boff] for v, tg in tt["targets"]]
+                tt["otherwise"] = tt["otherwise"] + boff if tt.get("otherwise") is not None else None
+            elif k == "call":
+                tt["args"] = [_shift_operand(a, off, prom_off) for a in tt["args"]]
+                tt["dest"] = _shift_place(tt["dest"], off)
+                if isinstance(tt.get("callee_dyn"), dict):
+                    tt["callee_dyn"] = _shift_operand(tt["callee_dyn"], off, prom_off)
+            elif k == "drop":
+                tt["place"] = _shift_place(tt["place"], off)
+            elif k == "assert":
+                tt["cond"] = _shift_operand(tt["cond"], off, prom_off)
+        nb["term"] = tt
+        caller["blocks"].append(nb)
+    blk = caller["blocks"][bi]
+    for i, a in enumerate(t["args"]):
+        blk["stmts"].append({"k": "assign", "lhs": {"l": off + 1 + i, "p": []}, "rv": {"k": "use", "op": a}, "sp": sp})
+    blk["term"] = {"k": "goto", "target": boff, "sp": sp}
+
+
+def _inline_new_helpers(j, ref, renamed_new):
+    """functions that the reference table does not know (and that are no renames) are helpers somebody extracted: their bodies are inlined
+    at their call sites inside this crate, so that the rules see the caller as it was before the extraction. Returns the inlined paths."""
+    cur = fn_table(j)
+    new = [p_ for p_ in cur if p_ not in ref and p_ not in renamed_new]
+    if not new:
+        return []
+    by_path = {}
+    for b in j["bodies"]:
+        if b.get("promoted") is None:
+            by_path[b["path"]] = b
+    done, serial = [], 0
+    for _round in range(3):
+        progressed = False
+        for hp in new:
+            h = by_path.get(hp)
+            if h is None:
+                continue
+            # not recursive, returns normally
+            if any(blk["term"]["k"] == "call" and blk["term"].get("resolved") == hp for blk in h["blocks"]):
+                continue
+            sites = []
+            for b in j["bodies"]:
+                if b is h or b.get("promoted") is not None:
+                    continue
+                for bi, blk in enumerate(b["blocks"]):
+                    t = blk["term"]
+                    if t["k"] == "call" and t.get("resolved_local") and t.get("resolved") == hp and t.get("target") is not None and len(t["args"]) == h.get("arg_count", 0):
+                        sites.append((b, bi))
+            closures = [b for b in j["bodies"] if b.get("kind") == "Closure" and b.get("parent") == hp]
+            proms = [b for b in j["bodies"] if b.get("promoted") is not None and b["path"] == hp]
+            if not sites or (len(sites) > 1 and (closures or proms)):
+                continue
+            for caller, bi in sites:
+                serial += 1
+                cl_map = {}
+                for cb in closures:
+                    newp = caller["path"] + "::{closure#%d}" % (1000 * serial + len(cl_map))
+                    cl_map[cb["path"]] = newp
+                _inline_call(caller, bi, h, serial, cl_map)
+                for cb in closures:
+                    cb["parent"] = caller["path"]
+                    cb["path"] = cl_map[cb["path"]]
+                for pb in proms:
+                    pb["path"] = caller["path"]
+                    pb["promoted"] = pb["promoted"] + 1000 * serial
+                    for k_ in ("impl_self", "impl_trait", "impl_trait_ref"):
+                        if k_ in caller:
+                            pb[k_] = caller[k_]
+                        else:
+                            pb.pop(k_, None)
+            done.append(hp)
+            progressed = True
+        new = [p_ for p_ in new if p_ not in done]
+        if not progressed:
+            break
+    return done
 
 
 class Program:
@@ -769,8 +917,9 @@ class Program:
                 table = json.load(open(tp))
             except ValueError:
                 table = None
-        loaded, ren = _load_facts(list(fact_files), table)
+        loaded, ren, inl = _load_facts(list(fact_files), table)
         self.renamed.update(ren)
+        self.inlined = list(inl)
         for j in loaded:
             label = j["crate"]
             self.crates[label] = j
